@@ -11,6 +11,9 @@ Line protocol for the memory-value model and the C11 specification.
     v2r <bank> <name> <i:n | b:0|1 | s:<hex> | o>   model of value_to_raw
     spec interp <bank> <name> <hex>          Spec.Mem.interpret on the transcribed row
     spec row <bank> <name> | spec bank <key> the transcribed layout / bank row
+    derived <bank> <name> <signed 0|1> <mask hex|none> <tmask hex|none> interp|check|r2v|valid|v2r <arg>
+                                             the same accessors on a value derived from a declared one with the
+                                             sign flag set/cleared (patterns as the metaclass computed them)
 
 `<hex>` is the raw byte string (`-` = empty).  Results: `ok int <n> | ok dec <mant> <exp>`
 (normalised: mantissa not divisible by ten) `| ok str <hex of the characters> |
@@ -93,7 +96,33 @@ def kindName : Spec.Mem.Kind → String
 def optInt : Option Int → String
   | none => "-" | some i => toString i
 
+/-- the accessors on a value DERIVED from a declared one (`class D(Parent): signed = …`, in a scratch bank): the
+parent's coding with the sign flag and the metaclass-computed patterns of the derived class -/
+def onDerived (v : MemValue) : List String → String
+  | ["interp", h] => match parseHex h with
+    | some raw => fmtOpt fmtMVal (interpret v raw) | none => "bad-op"
+  | ["r2v", h] => match parseHex h with
+    | some raw => fmtOpt fmtMVal (rawToValue v raw) | none => "bad-op"
+  | ["check", h] => match parseHex h with
+    | some raw => fmtOpt (fun o => match o with | none => "none" | some f => flagName f) (checkRaw v raw)
+    | none => "bad-op"
+  | ["valid", h] => match parseHex h with
+    | some raw => fmtOpt (fun x => if x then "1" else "0") (isValid v raw) | none => "bad-op"
+  | ["v2r", w] => match parseW w with
+    | some x => fmtOpt (fun l => if l.isEmpty then "-" else hexOf l) (valueToRaw v x) | none => "bad-op"
+  | _ => "bad-op"
+
+def parsePattern (s : String) : Option (Option (List Nat)) :=
+  if s == "none" then some none else (parseHex s).map some
+
 def handle : List String → String
+  | "derived" :: b :: n :: sg :: m :: t :: rest =>
+    match findValue b n, parsePattern m, parsePattern t with
+    | some v, some mask, some tmask =>
+      if sg == "0" || sg == "1" then
+        onDerived { v with signed := sg == "1", mask := mask, tmask := tmask } rest
+      else "bad-op"
+    | _, _, _ => "bad-op"
   | ["values"] => "ok " ++ " ".intercalate (Gen.memValues.map fun v => v.bank ++ "/" ++ v.name)
   | ["interp", b, n, h] =>
     match findValue b n, parseHex h with
